@@ -73,6 +73,7 @@ fn fmt_ty(t: &Type) -> String {
         Type::Signed(s) => fmt_sty(s).into(),
         Type::Array(e, n) => format!("(arr {} {n})", fmt_ty(e)),
         Type::ArrayConst(e, c) => format!("(arrc {} {c})", fmt_ty(e)),
+        Type::ArrayConstExpr(e, x) => format!("(arre {} {})", fmt_ty(e), fmt_cexpr(x)),
         Type::Tuple(ts) => format!(
             "(tup{})",
             ts.iter().map(|t| format!(" {}", fmt_ty(t))).collect::<String>()
